@@ -153,7 +153,7 @@ fn budget(prop: &str, tier: &str, seed: u64, scale: f64) -> Budget {
     let random_runs;
     match prop {
         "C03" => {
-            random_runs = r(240_000, 80_000, 6_000_000, 3_000_000);
+            random_runs = r(240_000, 80_000, 18_000_000, 9_000_000);
             if checked {
                 sweeps.push(sweeps::c03_single_codeword(seed, if quick { 6 } else { 255 }));
                 if !quick {
@@ -163,20 +163,24 @@ fn budget(prop: &str, tier: &str, seed: u64, scale: f64) -> Budget {
             }
         }
         "C09" => {
-            random_runs = r(300_000, 100_000, 8_000_000, 4_000_000);
+            random_runs = r(300_000, 100_000, 24_000_000, 12_000_000);
+            if checked && !quick {
+                sweeps.push(sweeps::c09_sq10_weight3(seed));
+            }
         }
         "C05" => {
-            random_runs = r(250_000, 150_000, 6_000_000, 6_000_000);
+            random_runs = r(250_000, 150_000, 18_000_000, 18_000_000);
             sweeps.push(sweeps::c05_short_streams(!quick, !quick && checked));
             if checked {
                 sweeps.push(sweeps::small_geometry("C05", if quick { 200 } else { 1300 }, if quick { 40 } else { 150 }));
             }
         }
         "C08" => {
-            random_runs = r(120_000, 40_000, 4_000_000, 1_000_000);
+            random_runs = r(120_000, 40_000, 12_000_000, 3_000_000);
             if checked {
                 sweeps.push(sweeps::c08_single_pixel(seed, if quick { 1 } else { 16 }));
                 sweeps.push(sweeps::small_geometry("C08", if quick { 330 } else { 1300 }, if quick { 40 } else { 150 }));
+                sweeps.push(sweeps::c08_track_faults(seed));
             }
         }
         _ => {
@@ -248,6 +252,9 @@ fn cmd_run(a: &Args) -> i32 {
         phases.push(s);
     }
     phases.push(Phase { source: Source::Random { prop: prop.clone(), seed }, runs: b.random_runs, wall_cap_s: b.wall_cap_s });
+    if let Some(only) = a.opts.get("only-phase") {
+        phases.retain(|p| p.source.name().contains(only.as_str()));
+    }
     let phase_desc: Vec<J> = phases
         .iter()
         .map(|p| J::obj().with("phase", J::s(&p.source.name())).with("planned_runs", J::Int(p.runs as i64)))
